@@ -307,6 +307,15 @@ def run(ctx):
     def add(c, reject, theta0, script, ncalls, regime=None, dd=None):
         mdt = REGIMES[regime]['mdt'] if regime else None
         obs = run_scripted(pp, torch, c, reject, theta0, script, ncalls, mdt=mdt, dd=dd)
+        if any(o is None for o in obs):
+            # LM documents (and the property states) that a raising solver ENDS the call - with the parameters and the loss
+            # of before that trial; the exception of the user's solver (of any type) must not escape from step()
+            ctx.case(('lm-raise-escapes', c['kind'], reject, theta0, tuple(script[:40])), nontrivial=True, branch='lm-solver-exception-escaped')
+            ctx.violation('lm-solver-exception-escapes', 'LM.step() did not end normally when the user solver raised (a non-RuntimeError exception) at solve %d: '
+                          'the exception escaped from step(), no loss was returned' % script.index(None),
+                          dict(kind='lm', cfg=c, reject=reject, theta0=theta0, script=script[:max(40, script.index(None) + 2)], ncalls=ncalls,
+                               calls_completed=len(obs) - 1, regime=regime, dd=dd))
+            return
         if regime and any(o is not None and abs(o[1]) >= 2 * REGIMES[regime]['M'] for o in obs):
             ctx.count('lm-regime-left-exact-range-not-judged')          # theta^2 would round: not part of the exact universe
             return
@@ -385,6 +394,12 @@ def run(ctx):
         ncalls = rng.choice([5, 10, 30])
         script, classes = gen_script_quad(rng, c, cc, th0, reject, n=min(120, ncalls * (reject + 1) + 2))      # a run makes at most ncalls * (reject + 1) solves
         obs = run_scripted(pp, torch, c, reject, th0, script, ncalls, quad=cc)
+        if any(o is None for o in obs):       # see add(): the solver's exception must not escape from LM.step()
+            ctx.violation('lm-solver-exception-escapes', 'LM.step() did not end normally when the user solver raised (a non-RuntimeError exception) at solve %d: '
+                          'the exception escaped from step(), no loss was returned' % script.index(None),
+                          dict(kind='lmq', cfg=c, reject=reject, theta0=th0, quad=cc, script=script[:max(40, script.index(None) + 2)], ncalls=ncalls,
+                               calls_completed=len(obs) - 1))
+            continue
         ctx.case(('lmq', kind, reject, th0, cc, tuple(script[:40])), nontrivial=True, branch='lm-nonlinear-kind%d' % kind)
         ctx.count('nonlinear-universe-requested-' + ('has-USU' if 'USU' in classes else 'no-USU') + ('-has-0/0' if 'N' in classes else ''))
         ctx.traces += 1
